@@ -80,6 +80,9 @@ __CPROVER_ensures(((G) && RV == 0 && (cl)->cl_maxsz > 0 && OLD((cl)->cl_total) <
 __CPROVER_ensures(((G) && (c) == '\n' && OLD((cl)->cl_size) != 0 && RV == 0) ==> (__CPROVER_is_fresh(CHL.last, sizeof(nni_http_chunk)) && CH_LAST->c_size == (cl)->cl_size && CH_LAST->c_alloc == (cl)->cl_size + 2 && CH_LAST->c_resid == (cl)->cl_size + 2 && __CPROVER_is_fresh(CH_LAST->c_data, (cl)->cl_size + 2))) \
 __CPROVER_ensures(((G) && !((c) == '\n' && OLD((cl)->cl_size) != 0 && RV == 0)) ==> VP_SAME_PTR(CHL.last))
 
+/* the last member of the chunk list is an allocated chunk (or there is none) */
+#define LAST_VALID_OR_NULL (CHL.last == NULL || __CPROVER_is_fresh(CHL.last, sizeof(nni_http_chunk)))
+
 /* an error changes nothing the decoder has accumulated */
 #define ERROR_FRAME(cl)                                                                  \
 __CPROVER_ensures(RV != 0 ==> (SAME_SIZE(cl) && SAME_LINE(cl) && SAME_TOTAL(cl) && SAME_LISTN))
@@ -102,6 +105,7 @@ __CPROVER_ensures(RV != 0 ==> SAME_STATE(cl))
 
 static nng_err chunk_ingest_newline(nni_http_chunks *cl, char c)
 __CPROVER_requires(CL_FRESH(cl) && cl->cl_state == CS_CR)
+__CPROVER_requires(LAST_VALID_OR_NULL)
 __CPROVER_assigns(cl->cl_state, cl->cl_line, cl->cl_total, CHL, VP_HEAP_GHOSTS)
 NEWLINE_SCALAR_CLAUSES(cl, c, 1)
 NEWLINE_POINTER_CLAUSES(cl, c, 1)
@@ -145,6 +149,9 @@ __CPROVER_ensures(RV == 0 ==> ((cl)->cl_state != CS_INIT && (cl)->cl_state <= CS
 
 static nng_err chunk_ingest_char(nni_http_chunks *cl, char c)
 __CPROVER_requires(CL_FRESH(cl))
+#ifndef VP_PARSE_ABSTRACT
+__CPROVER_requires(LAST_VALID_OR_NULL)
+#endif
 __CPROVER_assigns(cl->cl_state, cl->cl_size, cl->cl_line, cl->cl_total, CHL, VP_HEAP_GHOSTS)
 CHAR_SCALAR_CLAUSES(cl, c)
 #ifndef VP_PARSE_ABSTRACT
@@ -225,7 +232,7 @@ __CPROVER_requires(CL_FRESH(cl) && CHUNKS_WF_SCALAR(cl) && CHUNK_N_OK(n))
 __CPROVER_requires(n == 0 || __CPROVER_is_fresh(buf, n))
 __CPROVER_requires(__CPROVER_is_fresh(lenp, sizeof(*lenp)))
 #ifndef VP_PARSE_ABSTRACT
-__CPROVER_requires(cl->cl_state != CS_DATA || (CHL.n >= 1 && CH_CHUNK_PRE(CH_LAST)))
+__CPROVER_requires(cl->cl_state != CS_DATA ? LAST_VALID_OR_NULL : (CHL.n >= 1 && CH_CHUNK_PRE(CH_LAST)))
 __CPROVER_assigns(cl->cl_state, cl->cl_size, cl->cl_line, cl->cl_total, CHL, VP_HEAP_GHOSTS, *lenp)
 __CPROVER_assigns(cl->cl_state == CS_DATA: CH_LAST->c_resid, __CPROVER_object_whole(CH_LAST->c_data))
 /* a chunk being filled is well-formed again when the call returns */
